@@ -174,6 +174,14 @@ impl Property for C08 {
             out.fail("c08:ctor-failed", format!("constructor failed: {:?}", real.ctor));
             return out;
         }
+        // every random() of this profile sits in an unselected ite branch: no draw may happen
+        if !real.draws.is_empty() {
+            out.fail(
+                "c08:ite-not-lazy",
+                format!("the generator was used although every random() is in an unselected ite branch: {:?}", &real.draws[..real.draws.len().min(6)]),
+            );
+            return out;
+        }
         for (k, e) in exprs.iter().enumerate() {
             // outputs of the latest output-reading call before row k is evaluated: call k
             let outs_now: BTreeMap<String, OutVal> = [("Q", 1usize), ("R", 2usize)]
